@@ -77,7 +77,35 @@ def observe(env, cat, mod, m, what):
         m.to_pydict()
 
 
+def make_by_history(env, cat, mod):
+    """a message that has a history behind it: built with one or two members of a oneof group given to the constructor, then possibly an
+    assignment of a member, then possibly another member decoded into the existing instance"""
+    from .c07 import _bp, _member_value
+
+    s = cat.shapes["M"]
+    g, members = sorted(s.groups().items())[0]
+
+    def value(f, tag):
+        return _bp(mod, cat, f, _member_value(env, cat, f, "h.%s.%s" % (tag, f.name)))
+
+    i = env.choose("h.first", len(members))
+    j = env.choose("h.second", len(members) + 1)
+    kw = {members[i].name: value(members[i], "ctor1")}
+    if j < len(members) and j != i:
+        kw[members[j].name] = value(members[j], "ctor2")
+    m = mod.M(**kw)
+    k = env.choose("h.assign", len(members) + 1)
+    if k < len(members):
+        setattr(m, members[k].name, value(members[k], "assign"))
+    p = env.choose("h.parse", len(members) + 1)
+    if p < len(members):
+        m.parse(bytes(mod.M(**{members[p].name: value(members[p], "parse")})))
+    return None, m
+
+
 def make(env, cat, mod, origin):
+    if origin == "history":
+        return make_by_history(env, cat, mod)
     val = shapes.gen_value(env, cat, "M", b=B1)
     if origin == "constructed":
         return val, sm.to_bp(mod, cat, "M", val)
@@ -229,6 +257,9 @@ def units(tier):
             for cp in COPIERS:
                 u.append(("copy[%s | %s | %s]" % (name, origin, cp), h_copies, {"cat": c, "origin": origin, "copier": cp}))
                 u.append(("copy[%s | %s | %s after reads]" % (name, origin, cp), h_copies, {"cat": c, "origin": origin, "copier": cp, "observe_first": True}))
+    for cp in COPIERS:
+        u.append(("copy[s2 oneofs | after a history of constructor / assignment / decode-into | %s]" % cp, h_copies, {"cat": ["s2", "oneofs"], "origin": "history", "copier": cp}))
+    u.append(("observers[s2 oneofs | after a history | any 1]", h_observers, {"cat": ["s2", "oneofs"], "origin": "history", "n": 1}))
     return u
 
 
